@@ -689,6 +689,7 @@ func runC05(w *mon.Worker) {
 		state := i%2 == 0
 		w.Case("retry-swap", map[string]any{"state": state}, func(c *mon.Case) { c05RetrySwapCase(c, state) })
 		w.Case("restart-after-swap", map[string]any{"state": state}, func(c *mon.Case) { c05RestartAfterSwapCase(c, state) })
+		w.Case("stale-error-swap", map[string]any{"state": state}, func(c *mon.Case) { c05StaleErrorSwapCase(c, state) })
 	}
 }
 
@@ -2000,5 +2001,68 @@ func c05RestartAfterSwapCase(c *mon.Case, state bool) {
 		c.Violate("survivor", w.kind()+"-current-routine-not-running", "after SetContext(#%d) and RestartRoutine %d instances are live, want exactly one under the new context", tagB, live)
 	}
 	call, _ := w.clearContext("d")
+	w.checkSuperseded(call, "ClearContext")
+}
+
+// c05StaleErrorSwapCase: the routine failed, was run again (RestartRoutine, or the retry timer) and now runs; the
+// container is given another live context (restart=false). The running instance is superseded: cancelled when
+// SetContext returns, and what runs afterwards runs under the new context.
+func c05StaleErrorSwapCase(c *mon.Case, state bool) {
+	r := c.Rng
+	viaRetry := r.IntN(2) == 0
+	behave := func(n, gen int) (bool, int, error, bool) {
+		if n == 0 {
+			return false, 0, fmt.Errorf("error-inst-0"), false
+		}
+		return true, 0, nil, false
+	}
+	w := newRtWorld(c, state, false, viaRetry, behave)
+	cx := &rtCtxs{}
+	defer cx.cancelAll()
+	ctxA, tagA := cx.fresh()
+	w.setContext("d", ctxA, false, fmt.Sprint("new#", tagA))
+	w.setGen("d", 1)
+	if viaRetry {
+		if !mon.SettleTimers(rtBackoff, 30, 15*time.Millisecond, 10*time.Second) {
+			c.Inconclusive("no quiescence after the retry")
+			return
+		}
+	} else {
+		if !mon.Quiesce(5 * time.Second) {
+			c.Inconclusive("no quiescence after the failure")
+			return
+		}
+		w.restart("d")
+		if !mon.Quiesce(5 * time.Second) {
+			c.Inconclusive("no quiescence after RestartRoutine")
+			return
+		}
+	}
+	if ins := w.instances(); len(ins) != 2 || ins[1].exit.Load() != 0 {
+		c.Inconclusive("the second instance is not running")
+		return
+	}
+	ctxB, tagB := cx.fresh()
+	call, _ := w.setContext("d", ctxB, false, fmt.Sprint("new#", tagB))
+	w.checkSuperseded(call, "SetContext(new context, restart=false) after a failure that was followed by a re-run")
+	c.Count("stale_error_swap_templates", 1)
+	c.NonTrivial()
+	if !mon.Quiesce(5 * time.Second) {
+		c.Inconclusive("no quiescence after SetContext")
+		return
+	}
+	live := 0
+	for _, in := range w.instances() {
+		if in.exit.Load() == 0 && in.ctx.Err() == nil {
+			live++
+			if in.tag != tagB && !c.Violated() {
+				c.Violate("survivor", w.kind()+"-survivor-wrong-context", "the routine failed under context #%d and was run again (retry timer: %v); the container was then given context #%d (restart=false); instance #%d is live under context #%d", tagA, viaRetry, tagB, in.n, in.tag)
+			}
+		}
+	}
+	if live != 1 && !c.Violated() {
+		c.Violate("survivor", w.kind()+"-current-routine-not-running", "after SetContext(#%d) %d instances are live, want exactly one under the new context", tagB, live)
+	}
+	call, _ = w.clearContext("d")
 	w.checkSuperseded(call, "ClearContext")
 }
